@@ -20,6 +20,7 @@ func init() {
 		Quick:      all("./internal/impl", "./proto", "./internal/encoding/messageset"),
 		Thorough:   allAndLegacy("./internal/impl", "./proto", "./internal/encoding/messageset"),
 		Run: func(c *Ctx) {
+			c.ruleSizeCache("R-SIZECACHE")
 			c.ruleSizeAppend("R-SIZE-APPEND", []string{"internal/impl", "proto", "internal/encoding/messageset"}, sizeAppendNotAnalysed, 130)
 			c.ruleSpecLen("R-SPEC-LEN")
 			c.ruleMapEntryParity("R-MAP-ENTRY-PARITY")
